@@ -264,3 +264,201 @@ Qed.
 Lemma Inv_handle_unsubscribe cfg s tit mid tid name :
   Inv cfg s -> Inv cfg (st_of (handle_unsubscribe cfg s tit mid tid name)).
 Proof. intros H. unfold handle_unsubscribe. inv_walk. Qed.
+
+(* --- the connect exchange *)
+Definition Inv3 (s : gw_state) : Prop :=
+  IA (gw_accepted s) (gw_st s) /\ IT (gw_accepted s) (gw_timers s) /\ IO (gw_accepted s) (gw_objs s).
+
+Lemma Inv_Inv3 cfg s : Inv cfg s -> Inv3 s.
+Proof. intros [HA [HT [HO _]]]. repeat split; assumption. Qed.
+
+Lemma Inv3_finish_obj s g : Inv3 s -> Inv3 (finish_obj s g).
+Proof.
+  intros [HA [HT HO]]. unfold finish_obj. destruct (gw_objs s !! g) as [t|]; [|repeat split; assumption].
+  destruct t; unfold Inv3; cbn; (split; [|split]); eauto with inv.
+Qed.
+
+Lemma Inv_set_conn cfg s g mq a :
+  Inv3 s -> gw_connect s = Some g -> Cx cfg (gw_auth_seen s) mq a -> Inv cfg (set_obj s g (TxConnect mq a)).
+Proof.
+  intros [HA [HT HO]] Hg HC. unfold Inv, set_obj. cbn. rewrite Hg. (split; [|split; [|split]]); eauto with inv.
+Qed.
+
+Lemma Inv_connect_auth_done cfg s g mq :
+  Inv3 s -> gw_connect s = Some g ->
+  Cx cfg (gw_auth_seen s) mq (if c_will mq then CxWillTopic else CxConnack) ->
+  Inv cfg (st_of (connect_auth_done s g mq)).
+Proof.
+  intros H3 Hg HC. unfold connect_auth_done. destruct (c_will mq).
+  - cbn [sn_send]. apply Inv_sn_send_owned, Inv_set_conn; assumption.
+  - cbn [mq_send st_of ok fst]. apply Inv_set_conn; assumption.
+Qed.
+
+Lemma Inv_handle_connect cfg s will clean proto dur cid :
+  Inv cfg s -> Inv cfg (st_of (handle_connect cfg s will clean proto dur cid)).
+Proof.
+  intros H. unfold handle_connect.
+  destruct (negb (proto =? 1)); [inv_walk|].
+  destruct (cstate_eqb (gw_st s) Awake || cstate_eqb (gw_st s) Asleep) eqn:Hst.
+  - cbn [sn_send]. apply Inv_sn_send_owned.
+    assert (Hacc : gw_accepted s = true).
+    { destruct H as [[Ha|Hd] _]; [exact Ha|]. rewrite Hd in Hst. discriminate. }
+    inv_split. unfold Inv. cbn. rewrite Hacc in *. (split; [|split; [|split]]); eauto with inv.
+  - destruct (dur =? 0); [inv_walk|]. cbv zeta. unfold new_obj. cbv beta iota.
+    match goal with |- context [match gw_connect ?s0 with Some g => finish_obj ?s0' g | None => ?s0'' end] =>
+      set (s1 := match gw_connect s0 with Some g => finish_obj s0' g | None => s0'' end) end.
+    assert (H1 : Inv3 s1).
+    { subst s1. cbn [gw_connect]. 
+      assert (H0 : Inv3 (s <| gw_keepalive := dur |> <| gw_client_id := cid |> <| gw_auth_seen := None |>)).
+      { inv_split. unfold Inv3. cbn. repeat split; assumption. }
+      cbn. destruct (gw_connect s); [apply Inv3_finish_obj|]; exact H0. }
+    assert (Hseen : gw_auth_seen s1 = None).
+    { subst s1. cbn. destruct (gw_connect s); [|reflexivity].
+      unfold finish_obj. cbn. destruct (gw_objs s !! n) as [[]|]; reflexivity. }
+    clearbody s1. destruct H1 as [HA [HT HO]].
+    unfold connect_start. destruct (auth_enabled cfg) eqn:Hau.
+    + cbn [st_of ok fst]. apply Inv_set_conn.
+      * unfold Inv3. cbn. (split; [|split]); eauto with inv.
+      * reflexivity.
+      * unfold Cx. cbn. repeat split; intros; try congruence. destruct H0; discriminate.
+    + apply Inv_connect_auth_done.
+      * unfold Inv3. cbn. (split; [|split]); eauto with inv.
+      * reflexivity.
+      * unfold Cx. cbn. destruct will; repeat split; intros; try congruence; try discriminate.
+        all: destruct H0; discriminate.
+Qed.
+
+Lemma Inv_cx cfg s g mq a : Inv cfg s -> get_connect s = Some (g, mq, a) -> Cx cfg (gw_auth_seen s) mq a.
+Proof. intros [_ [_ [_ HC]]] Hg. apply get_connect_Some in Hg. destruct Hg as [Hc Hl]. eapply HC; eassumption. Qed.
+
+Lemma Inv_connect_auth cfg s g mq a method data :
+  Inv cfg s -> get_connect s = Some (g, mq, a) -> Inv cfg (st_of (connect_auth s g mq a method data)).
+Proof.
+  intros H Hg. unfold connect_auth.
+  destruct (negb (cx_state_eqb a CxAuth)) eqn:Ha; [exact H|].
+  assert (a = CxAuth) as -> by (destruct a; cbn in Ha; try discriminate; reflexivity).
+  pose proof (Inv_cx _ _ _ _ _ H Hg) as [Hau _]. specialize (Hau eq_refl).
+  destruct (beq method AUTH_PLAIN); [|inv_walk].
+  destruct (decode_plain data) as [[u p]|]; [|inv_walk].
+  apply Inv_connect_auth_done.
+  - apply Inv_Inv3 in H. exact H.
+  - cbn. apply get_connect_Some in Hg. apply Hg.
+  - cbn. unfold Cx. destruct (c_will mq) eqn:Hw; cbn; repeat split; intros; try congruence; try discriminate; eauto 10.
+    all: destruct H0; discriminate.
+Qed.
+
+Lemma Cx_update cfg seen mq a mq' a' :
+  Cx cfg seen mq a -> a <> CxAuth -> a' <> CxAuth ->
+  c_uflag mq' = c_uflag mq -> c_user mq' = c_user mq -> c_pflag mq' = c_pflag mq -> c_pass mq' = c_pass mq ->
+  (a' = CxWillTopic \/ a' = CxWillMsg -> c_will mq' = true) ->
+  Cx cfg seen mq' a'.
+Proof.
+  intros [H1 [H2 [H3 H4]]] Ha Ha' E1 E2 E3 E4 Hw. unfold Cx. rewrite E1, E2, E3, E4.
+  split; [intros; contradiction|]. split; [exact H2|]. split; [|exact Hw].
+  intros Hau _. apply H3; assumption.
+Qed.
+
+Definition disc_legal (p : packet) : bool :=
+  match p with
+  | Connect _ _ _ _ _ | Auth _ _ _ | WillMsg _ | WillTopic _ _ _ | Publish _ _ _ _ _ _ _ => true
+  | Disconnect d => d =? 0
+  | _ => false
+  end.
+
+Lemma nd_accepted cfg s : Inv cfg s -> gw_st s <> Disconnected -> gw_accepted s = true.
+Proof. intros [[Ha|Hd] _] Hn; [exact Ha|contradiction]. Qed.
+
+Lemma legal_cases cfg s p : Inv cfg s -> packet_legal cfg s p = true -> disc_legal p = true \/ gw_accepted s = true.
+Proof.
+  intros H Hl. unfold packet_legal in Hl. destruct (gw_st s) eqn:Hst.
+  - left. destruct p; try discriminate Hl; try reflexivity. exact Hl.
+  - right. eapply nd_accepted; [exact H|congruence].
+  - right. eapply nd_accepted; [exact H|congruence].
+  - right. eapply nd_accepted; [exact H|congruence].
+Qed.
+
+#[local] Hint Extern 1 (IT _ _) => (left; assumption) : inv.
+
+Lemma Inv_handle_sn cfg s p : Inv cfg s -> Inv cfg (st_of (handle_sn cfg s p)).
+Proof.
+  intros H. unfold handle_sn.
+  destruct (negb (packet_legal cfg s p)) eqn:Hl; [exact H|].
+  apply negb_false_iff in Hl. pose proof (legal_cases _ _ _ H Hl) as Hacc.
+  destruct p; try exact H.
+  - (* Auth *) destruct (get_connect s) as [[[g mq] a]|] eqn:Hg; [|exact H]. apply Inv_connect_auth; assumption.
+  - (* Connect *) apply Inv_handle_connect, H.
+  - (* WillTopic *)
+    destruct (get_connect s) as [[[g mq] a]|] eqn:Hg; [|exact H].
+    destruct (negb (cx_state_eqb a CxWillTopic)) eqn:Ha; [exact H|].
+    assert (a = CxWillTopic) as -> by (destruct a; cbn in Ha; try discriminate; reflexivity).
+    destruct ((len topic =? 0) || (2 <? qos)); [inv_walk|].
+    cbv zeta. cbn [sn_send]. apply Inv_sn_send_owned, Inv_set_conn.
+    + apply Inv_Inv3 in H. exact H.
+    + apply get_connect_Some in Hg. apply Hg.
+    + pose proof (Inv_cx _ _ _ _ _ H Hg) as HC. eapply Cx_update; [exact HC|discriminate|discriminate|reflexivity..|].
+      intros _. cbn. destruct HC as [_ [_ [_ HC]]]. apply HC. left. reflexivity.
+  - (* WillMsg *)
+    destruct (get_connect s) as [[[g mq] a]|] eqn:Hg; [|exact H].
+    destruct (negb (cx_state_eqb a CxWillMsg)) eqn:Ha; [exact H|].
+    assert (a = CxWillMsg) as -> by (destruct a; cbn in Ha; try discriminate; reflexivity).
+    cbv zeta. cbn [mq_send st_of ok fst]. apply Inv_set_conn.
+    + apply Inv_Inv3 in H. exact H.
+    + apply get_connect_Some in Hg. apply Hg.
+    + pose proof (Inv_cx _ _ _ _ _ H Hg) as HC. eapply Cx_update; [exact HC|discriminate|discriminate|reflexivity..|].
+      intros [E|E]; discriminate E.
+  - (* Register *)
+    pose proof (register_topic_view cfg s name) as Hv. destruct (register_topic cfg s name) as [s1 [i|]]; cbn [fst] in Hv;
+      apply (Inv_view cfg) in Hv; try exact H; cbn [sn_send]; apply Inv_sn_send_owned; [inv_leaf|exact Hv].
+  - (* Regack *)
+    destruct (get_by_id s mid) as [[g t]|] eqn:Hg; [|exact H].
+    destruct t; try exact H. apply Inv_bp_regack; [exact H|]. eapply Inv_ok_by_id; eassumption.
+  - (* Publish *) apply Inv_handle_client_publish, H.
+  - (* Puback *)
+    destruct Hacc as [Hacc|Hacc]; [discriminate|].
+    destruct (get_by_id s mid) as [[g t]|] eqn:Hg; [|exact H].
+    pose proof (Inv_ok_by_id _ _ _ _ _ H Hg) as Hok.
+    destruct t as [| | |m q st d sp n]; try exact H.
+    repeat (match goal with |- Inv _ (st_of (match ?x with _ => _ end)) => destruct x; try exact H end).
+    destruct (negb (bp_state_eqb st AwaitPuback)); [exact H|].
+    destruct (negb (rc =? RC_ACCEPTED)); [inv_walk|].
+    apply Inv_bp_proceed; [exact H|exact Hacc|apply Hok].
+  - (* Pubcomp *)
+    destruct Hacc as [Hacc|Hacc]; [discriminate|].
+    destruct (get_by_id s mid) as [[g t]|] eqn:Hg; [|exact H].
+    pose proof (Inv_ok_by_id _ _ _ _ _ H Hg) as Hok.
+    destruct t as [| | |m q st d sp n]; try exact H.
+    repeat (match goal with |- Inv _ (st_of (match ?x with _ => _ end)) => destruct x; try exact H end).
+    destruct (negb (bp_state_eqb st AwaitPubcomp)); [exact H|].
+    apply Inv_bp_proceed; [exact H|exact Hacc|apply Hok].
+  - (* Pubrec *)
+    destruct Hacc as [Hacc|Hacc]; [discriminate|].
+    destruct (get_by_id s mid) as [[g t]|] eqn:Hg; [|exact H].
+    pose proof (Inv_ok_by_id _ _ _ _ _ H Hg) as Hok.
+    destruct t as [| | |m q st d sp n]; try exact H.
+    repeat (match goal with |- Inv _ (st_of (match ?x with _ => _ end)) => destruct x; try exact H end).
+    destruct (negb (bp_state_eqb st AwaitPubrec)); [exact H|].
+    apply Inv_bp_proceed; [exact H|exact Hacc|apply Hok].
+  - (* Pubrel *) inv_walk.
+  - (* Subscribe *) apply Inv_handle_subscribe, H.
+  - (* Unsubscribe *) apply Inv_handle_unsubscribe, H.
+  - (* Pingreq *)
+    destruct (cstate_eqb (gw_st s) Asleep) eqn:Hst; [|exact H].
+    assert (Hacc' : gw_accepted s = true).
+    { eapply nd_accepted; [exact H|]. intros E. rewrite E in Hst. discriminate. }
+    cbv zeta. apply Inv_andthen.
+    + apply Inv_send_all. inv_split. unfold Inv. cbn. rewrite Hacc' in *. (split; [|split; [|split]]); eauto with inv.
+    + intros s1 H1. apply Inv_andthen.
+      * cbn [sn_send]. apply Inv_sn_send_owned. inv_leaf.
+      * intros s2 H2. cbn [st_of ok fst].
+        (* Asleep again: the state was accepted all along *)
+        admit.
+  - (* Disconnect *)
+    destruct (dur =? 0) eqn:Hd.
+    + inv_walk. inv_leaf.
+    + destruct Hacc as [Hacc|Hacc]; [cbn in Hacc; congruence|].
+      cbv zeta. apply Inv_andthen.
+      * cbn [sn_send]. apply Inv_sn_send_owned.
+        destruct (negb (gw_keepalive s =? 0) && (gw_keepalive s <? dur)); inv_split; unfold Inv; cbn; rewrite Hacc in *;
+          (split; [|split; [|split]]); eauto with inv.
+      * intros s1 H1. cbn [st_of ok fst]. admit.
+Admitted.
